@@ -7,12 +7,13 @@
 EXTENDS Front
 
 GStr == << Cp("foo"), Cp("*.txt"), Cp("a.b"), Cp("'a b'"), Cp("\"x y\""), Cp("-print"), Cp("F[ab]?"), Cp("0") >>
-GCmp32 == << Cp("0"), Cp("7"), Cp("+42"), Cp("-42"), Cp("4294967295"), Cp("+007"), Cp("-0") >>
-GCmp64 == << Cp("0"), Cp("+1"), Cp("-9"), Cp("18446744073709551615"), Cp("4294967296") >>
-GU32 == << Cp("0"), Cp("4"), Cp("16"), Cp("4294967295"), Cp("007") >>
-GSizeN == << Cp("0"), Cp("+10"), Cp("-1024") >>
+GCmp32 == << Cp("0"), Cp("7"), Cp("+42"), Cp("-42"), Cp("4294967295"), Cp("+00000000007"), Cp("-0") >>
+GCmp64 == << Cp("0"), Cp("+1"), Cp("-9"), Cp("18446744073709551615"), Cp("4294967296"), Cp("+000000000000000000012"), Cp("0000000000000000000000") >>
+GU32 == << Cp("0"), Cp("4"), Cp("16"), Cp("4294967295"), Cp("00000000007") >>
+\* (numerals wider than any machine integer but small in value: zero padding is decimal too; seed C05-i)
+GSizeN == << Cp("-000000000000000000012"), Cp("0"), Cp("+10"), Cp("-1024") >>
 GSizeU == << <<>>, Cp("b"), Cp("c"), Cp("w"), Cp("k"), Cp("M"), Cp("G"), Cp("T") >>
-GTimeN == << Cp("0"), Cp("+3"), Cp("-44") >>
+GTimeN == << Cp("+0000000000000000000003"), Cp("0"), Cp("+3"), Cp("-44") >>
 GTimeU == << <<>>, Cp("s"), Cp("m"), Cp("h"), Cp("d") >>
 GTypeL == Cp("bcdpfls")
 GPerm == << Cp("000"), Cp("644"), Cp("0755"), Cp("7777"), Cp("-0644"), Cp("/222"), Cp("u+x"), Cp("-g=rw"), Cp("/a-w"),
